@@ -373,6 +373,7 @@ PROPS = {
         "units": TOKEN + [K("k3::S-Strict-rejects"), K("k3::S-Deferred-twice"), K("parser.py::match_tag"),
                           U('pyvc.frames', 'cook_error_frame', '_cook.error_frame'),
                           U('pyvc.regexlang', 'statement_unit', 'tal.statement_patterns'),
+                          U('bounded.units', 'reject', 'B-REJECT'),
                           U('pyvc.frames', 'decorator_audit', 'decorator_audit'),
                  # a compiled module served from the cache for the wrong source or configuration breaks
                  # every property at once
